@@ -1,4 +1,4 @@
-\* C17 document layer, closed (thorough): 3 header kinds x every history of <= 3 add_* calls over the
+\* C17 document layer, closed (thorough): 2 header kinds x every history of <= 3 add_* calls over the
 \* four context paragraphs and at most one focus paragraph (copyright texts of <= 3 lines x license texts
 \* of <= 3 lines over E I ID P with 3 patterns; 1..3 patterns with the simplest texts)
 CONSTANTS
@@ -6,7 +6,7 @@ CONSTANTS
   Alphabet = {}
   MaxLen = 0
   MaxParas = 3
-  HdrKinds = {"min", "contact3", "full"}
+  HdrKinds = {"contact3", "full"}
   BigPats = {1, 2, 3}
   CopyMax = 3
   CopyAlpha = {"I", "ID"}
